@@ -72,6 +72,12 @@ class ConCtx(CtxBase):
     def select(self, lst, i):
         return lst[i]
 
+    def alternatives(self, x):
+        return [(True, x)]
+
+    def table_get(self, d, k):
+        return d[k]
+
     def use_zlib_model(self, pairs):
         """concrete mode: the real zlib is used; `pairs` (compressed, plain) must already be consistent"""
         pass
